@@ -33,10 +33,12 @@ def register(PROPS):
                         '(about 27k), events around the transitions of 6 years per zone; all cache sequences',
         },
         'drivers': [
-            D('c07_tz', ['mode=conv', 'tier=quick'] + _T, ['mode=conv', 'tier=thorough'] + _T, label='conv'),
+            D('c07_tz', ['mode=conv', 'tier=quick'] + _T, ['mode=conv', 'tier=thorough', '--deadline', '540'] + _T, label='conv'),
             D('c07_tz', ['mode=rule', 'tier=quick'] + _T, ['mode=rule', 'tier=thorough'] + _T, label='rule'),
             D('c07_tz', ['mode=cache', 'tier=thorough'] + _T, label='cache', shards=8),
+            D('harness/ref/tzif_oracle.py', ['--vdrv', 'quick'], ['--vdrv', 'thorough'], interp='python3', label='oracle-selfcheck', shards=16),
             D('c07_tz', ['mode=conv', 'tier=quick', 'orders=seq'] + _T, label='conv-asan', variant='asan', shards=8),
+            D('c07_tz', ['mode=rule', 'tier=quick'] + _T, label='rule-asan', variant='asan', shards=8),
             D('c07_tz', ['mode=cache', 'tier=thorough'] + _T, label='cache-asan', variant='asan', shards=8, tiers=('thorough',)),
         ],
         'assumptions': [
